@@ -331,6 +331,19 @@ func (st *State) load(p PtrV) Value {
 	if !ok {
 		abortf("load: dangling object %d", p.Obj)
 	}
+	if p.Sym != nil {
+		arr := descend(root, p.Path).(*ArrayV)
+		var r *smt.Term
+		for k := p.N - 1; k >= 0; k-- {
+			e := arr.E[p.Off+k].(*smt.Term)
+			if r == nil {
+				r = e
+			} else {
+				r = smt.Ite(smt.Eq(p.Sym, smt.BVC(64, uint64(k))), e, r)
+			}
+		}
+		return r
+	}
 	return descend(root, p.Path)
 }
 
@@ -341,6 +354,16 @@ func (st *State) store(p PtrV, v Value) {
 	root, ok := st.Heap[p.Obj]
 	if !ok {
 		abortf("store: dangling object %d", p.Obj)
+	}
+	if p.Sym != nil {
+		arr := descend(root, p.Path).(*ArrayV)
+		n := &ArrayV{E: append([]Value(nil), arr.E...)}
+		nv := v.(*smt.Term)
+		for k := 0; k < p.N; k++ {
+			n.E[p.Off+k] = smt.Ite(smt.Eq(p.Sym, smt.BVC(64, uint64(k))), nv, arr.E[p.Off+k].(*smt.Term))
+		}
+		st.setObj(p.Obj, update(root, p.Path, n))
+		return
 	}
 	st.setObj(p.Obj, update(root, p.Path, v))
 }
